@@ -13,7 +13,7 @@ PROPS = {
             "explanation": "contracts on serialize/_value_to_blackbird/numpy_to_blackbird and on the load side (PyVC, discharged by z3) + complete lexical lemmas on the "
                            "shipped lexer DFA; parse-back of serializer output by the shipped parser is a bounded stand-in (witness family roundtrip)"},
     "C02": {"title": "loading yields the program the script denotes", "level": "proof",
-            "sections": [("pyvc", {}), ("atnk", {"groups": ["identity"]}), ("lean", {"files": ["Walk.lean"]}), ("witness", W)]},
+            "sections": [("pyvc", {}), ("frames", {}), ("atnk", {"groups": ["identity"]}), ("lean", {"files": ["Walk.lean"]}), ("witness", W)]},
     "C03": {"title": "expressions evaluate to their arithmetic value", "level": "proof",
             "sections": [("pyvc", {}), ("atnk", {"groups": ["precedence", "literals"]}), ("witness", W)]},
     "C04": {"title": "instantiating a template equals substitution", "level": "other",
@@ -28,7 +28,7 @@ PROPS = {
                            "rejection, row-major index; the spec of exitArrayvar mirrors the code's flatten / re-insert / reshape(rows, -1) algorithm, and that it "
                            "produces element (r, c) = c-th entry of the r-th row is carried by the Lean lemmas flatten_get_rowmajor / reinsert_split under the "
                            "assumed NumPy contracts (A-numpy-array); layout end-to-end is a bounded stand-in (witness families decl_types, decl_types_x)",
-            "sections": [("pyvc", {}), ("lean", {"files": ["Fold.lean"]}), ("witness", W)]},
+            "sections": [("pyvc", {}), ("frames", {}), ("lean", {"files": ["Fold.lean"]}), ("witness", W)]},
     "C06": {"title": "a for-loop equals its unrolling", "level": "proof",
             "sections": [("pyvc", {}), ("lean", {"files": ["Walk.lean"]}), ("witness", W)]},
     "C07": {"title": "calling an included program equals inlining it", "level": "proof",
@@ -39,7 +39,7 @@ PROPS = {
             "sections": [("pyvc", {}), ("atnk", {"groups": ["canon_lex"]}), ("lean", {"files": ["Fold.lean"]}), ("witness", W)],
             "explanation": "as C01, starting from API-built programs; the parse-back of the emitted text is bounded (witness family api_serialize)"},
     "C10": {"title": "ungrammatical scripts raise BlackbirdSyntaxError at the offending token", "level": "proof",
-            "sections": [("pyvc", {}), ("atnk", {"groups": ["dominance"]}), ("witness", W)]},
+            "sections": [("pyvc", {}), ("atnk", {"groups": ["dominance", "identity", "lexer_eq", "parser_eq", "codegen_sim"]}), ("witness", W)]},
     "C11": {"title": "ill-formed but grammatical programs are refused", "level": "proof",
             "sections": [("pyvc", {}), ("witness", W)]},
     "C12": {"title": "each load is independent of every earlier load", "level": "proof",
@@ -59,7 +59,7 @@ PROPS = {
     "C16": {"title": "the dependency graph is an order-respecting DAG", "level": "proof",
             "sections": [("pyvc", {}), ("lean", {"files": ["Graph.lean", "GridEdges.lean"]}), ("witness", W)]},
     "C17": {"title": "template matching inverts instantiation", "level": "other",
-            "sections": [("pyvc", {}), ("lean", {"files": ["Graph.lean"]}), ("witness", W)],
+            "sections": [("pyvc", {}), ("frames", {}), ("lean", {"files": ["Graph.lean"]}), ("witness", W)],
             "explanation": "prechecks and argument loop of match_template under assumed contracts for DiGraphMatcher/solve (heavy assumptions, listed); reordering "
                            "isomorphism lemma G4 in Lean; the end-to-end left-inverse is a bounded stand-in (witness family template_match)"},
     "C18": {"title": "layout does not change the program", "level": "other",
